@@ -1208,8 +1208,11 @@ contract(
 )
 
 _NAME = "self.otf['name']"
-# NOT registered yet: the 21-key loop of setupTable_name explodes while unrolling (notes/C16.requests.md R10); the name
-# records stay under observer O (bounded) until the engine joins states per unrolled iteration
+# NOT registered (prepared work): since the engine joins the paths of every unrolled iteration (R10, done) both variants
+# below execute, and their loop obligations are discharged, but the 21 unrolled iterations leave a heap term (nested
+# ite / store over the table's key -> string map, four python-level paths) on which the solvers need 45 s and more PER
+# postcondition (z3 without extensionality; the others time out at 60 s) — outside the stability budget.  The name records
+# therefore stay under observer O (bounded).  `_isNonBMP`, which the function calls, IS under contract.
 _NAME_PROPS = []
 
 
@@ -1310,6 +1313,41 @@ _NAME_ENS["nothing-else"] = (
     + f" for k in {_KEYS}))"
 )
 _NAME_ENS["not-requested"] = "implies('name' not in self.tables, self.otf.get('name') == old(self.otf.get('name')))"
+
+# Variant for a font WITHOUT explicit name records (info.openTypeNameRecords empty or absent — the `requires` is a case
+# split, not a call-site precondition; the other case is the general variant below): the table holds exactly the
+# records built from the info attributes.
+contract(
+    "ufo2ft.outlineCompiler:BaseOutlineCompiler.setupTable_name",
+    name="c16/no-records",
+    props=_NAME_PROPS,
+    params={"self": Ref("OutlineCompilerN")},
+    requires=[f"len({_R}) == 0"],
+    ensures={
+        **{k: v for k, v in _NAME_ENS.items() if k.startswith("built:")},
+        # the IDs whose value is empty / None (or elided) have no record, and there is no record beyond the built ones
+        "nothing-else": _NAME_ENS["nothing-else"],
+        "not-requested": _NAME_ENS["not-requested"],
+    },
+    canaries={"no-family-name": f"'name' in self.tables and (1, 3, 1, 1033) not in {_KEYS}"},
+    modifies=["TTFont.tbl:name"],
+    ghost_vars={"built": (Opt(Map(NKEY, STR)), "None"), "built_keys": (Set(NKEY), "set()")},
+    ghost={"for nameId in sorted(nameVals.keys()):": ["built = name.recs", "built_keys = name.keyset"]},
+    loops={
+        "for nameRecord in getAttrWithFallback(font.info, 'openTypeNameRecords')": Loop(
+            index="i",
+            # the loop over the (empty) list of explicit records changes nothing
+            invariants={
+                "is-table": "self.otf.get('name') is not None and name == self.otf['name']",
+                "same-keys": "name.keyset == built_keys",
+                "same-strings": "all(name.recs[k] == built[k] for k in built_keys)",
+            },
+        )
+    },
+    models=_NAME_MODELS,
+    globals=G,
+    runtime=Runtime(_table_info_cases(), _table_build(), call=lambda fn, a: fn(a["self"])),
+)
 
 contract(
     "ufo2ft.outlineCompiler:BaseOutlineCompiler.setupTable_name",
